@@ -87,8 +87,9 @@ fn with_clause(w: &Option<WithSpec>) -> Option<String> {
     let mut ctes = vec![];
     for c in &w.ctes {
         let mut s = q(QUALS[6 + c.name as usize % 2]);
-        if !c.cols.is_empty() {
-            s.push_str(&format!(" ({})", c.cols.iter().map(|x| q(QCOLS[*x as usize % 5])).collect::<Vec<_>>().join(", ")));
+        let cols = c.effective_cols();
+        if !cols.is_empty() {
+            s.push_str(&format!(" ({})", cols.iter().map(|x| q(x)).collect::<Vec<_>>().join(", ")));
         }
         s.push_str(" AS ");
         match c.materialized {
